@@ -166,6 +166,15 @@ def check_function(ctx: core.Ctx, rel, qual, fn: ast.FunctionDef, dict_param: st
             have_primary = True
         ctx.oblige(rule, where, f"sink {kind} {txt}", okk, file=rel, func=qual, construct=f"noise sink {kind}",
                    msg=f"noise value for the pair (I, J) is written to `{txt}`", line=node.lineno)
+    # symmetry of what is written: an off-diagonal entry given once, as (a, b), must reach both (a, b) and (b, a) -- through the reversed lookup
+    # (both visits find it) or through the mirrored sink; with neither the matrix is asymmetric
+    both_lookups = ("(I, J) in D", "D[I, J]") in seen_pairs and ("(J, I) in D", "D[J, I]") in seen_pairs
+    mirrored = any(txt in ("(j, i)", "(f'covariance({j}, {i})', %s)" % var) for kind, txt, node in sinks)
+    if seen_pairs:
+        ctx.oblige(rule, where, f"pair entries reach both triangles (reversed lookup: {both_lookups}, mirrored sink: {mirrored})", both_lookups or mirrored,
+                   file=rel, func=qual, construct="noise symmetry",
+                   msg="a correlated noise entry given once as (a, b) is written to (a, b) only: neither is the pair looked up in both orders nor is the "
+                       "value mirrored to (j, i) -- the noise matrix, and every covariance predicted with it, is not symmetric", line=inner.lineno)
     if nsink == 0 or not have_primary:
         ctx.oblige(rule, where, "entry (i, j) receives the value chosen for (I, J)", False, file=rel, func=qual,
                    construct="noise sink missing", msg="no sink writes entry (i, j) with the value chosen for the pair (I, J)",
